@@ -13,6 +13,7 @@ import KinModel.ConcCase
 import KinModel.ConcSlice
 import KinModel.Gen.SharedWrites
 import KinModel.Gen.SharedGlobals
+import KinModel.Gen.ConstructionWrites
 import KinModel.Lemmas.C15
 namespace KinModel.Conc
 
@@ -31,33 +32,51 @@ theorem race_free (k : Cfg) (σ : State) (tr : Trace) (hc : CleanTrace k tr) (hl
   · exact n2 h
 
 /-- Schedule independence: in ANY interleaving with any other threads, and whatever the caches held at the
-    start (`τ` differs from `σ` at most on cache cells), thread `i` observes exactly what it observes when
-    it runs alone — hence returns the same verdict. -/
+    start (`τ` differs from `σ` at most on cache cells; a cache whose content is USED holds nothing or the value
+    its key determines, `Coherent`), thread `i` observes exactly what it observes when it runs alone — hence
+    returns the same verdict. This covers caches that ARE filled and read back (`fillUse`: the type-info cache):
+    whoever publishes first, every thread goes on with the value the key determines. -/
 theorem schedule_independent (k : Cfg) (i : Nat) : ∀ (tr : Trace) (σ τ : State),
-    CleanTrace k tr → LazyInit k σ → AgreeOff k σ τ → readsOf i σ tr = solo τ (proj i tr)
-  | [], _, _, _, _, _ => rfl
-  | (j, a) :: tr, σ, τ, hc, hl, hag => by
+    CleanTrace k tr → LazyInit k σ → AgreeOff k σ τ → Coherent k σ → Coherent k τ →
+    readsOf i σ tr = solo τ (proj i tr)
+  | [], _, _, _, _, _, _, _ => rfl
+  | (j, a) :: tr, σ, τ, hc, hl, hag, hcs, hct => by
     have hca : cleanAct k a = true := hc (j, a) (by simp)
     have hc' : CleanTrace k tr := fun x hx => hc x (by simp [hx])
     have hl' := lazy_step k σ a hca hl
+    have hcs' := coherent_step k σ a hca hcs
     by_cases hj : j = i
-    · obtain ⟨hag', hobs⟩ := agree_step k σ τ a hag hca
+    · obtain ⟨hag', hobs⟩ := agree_step k σ τ a hag hca hcs hct
       simp only [readsOf, proj, hj, if_true, solo]
-      rw [hobs, schedule_independent k i tr (stepState σ a) (stepState τ a) hc' hl' hag']
+      rw [hobs, schedule_independent k i tr (stepState σ a) (stepState τ a) hc' hl' hag' hcs'
+            (coherent_step k τ a hca hct)]
     · simp only [readsOf, proj, hj, if_false]
-      exact schedule_independent k i tr (stepState σ a) τ hc' hl' (agree_other k σ τ a hag hca hl)
+      exact schedule_independent k i tr (stepState σ a) τ hc' hl' (agree_other k σ τ a hag hca hl) hcs' hct
 
 /-- Any two complete interleavings of the same threads give every thread the same observations. -/
 theorem any_two_schedules_agree (k : Cfg) (ts : Nat → List Act) (σ : State) (tr1 tr2 : Trace)
     (h1 : IsSchedule ts tr1) (h2 : IsSchedule ts tr2) (c1 : CleanTrace k tr1) (c2 : CleanTrace k tr2)
-    (hl : LazyInit k σ) (i : Nat) : readsOf i σ tr1 = readsOf i σ tr2 := by
-  rw [schedule_independent k i tr1 σ σ c1 hl (agree_refl k σ),
-      schedule_independent k i tr2 σ σ c2 hl (agree_refl k σ), h1 i, h2 i]
+    (hl : LazyInit k σ) (hco : Coherent k σ) (i : Nat) : readsOf i σ tr1 = readsOf i σ tr2 := by
+  rw [schedule_independent k i tr1 σ σ c1 hl (agree_refl k σ) hco hco,
+      schedule_independent k i tr2 σ σ c2 hl (agree_refl k σ) hco hco, h1 i, h2 i]
 
 /-- Warm or cold caches make no difference to what a thread observes. -/
 theorem cache_contents_irrelevant (k : Cfg) (i : Nat) (tr : Trace) (σ τ : State) (hc : CleanTrace k tr)
-    (hl : LazyInit k σ) (hl' : LazyInit k τ) (hag : AgreeOff k σ τ) : readsOf i σ tr = readsOf i τ tr := by
-  rw [schedule_independent k i tr σ τ hc hl hag, schedule_independent k i tr τ τ hc hl' (agree_refl k τ)]
+    (hl : LazyInit k σ) (hl' : LazyInit k τ) (hag : AgreeOff k σ τ) (hcs : Coherent k σ) (hct : Coherent k τ) :
+    readsOf i σ tr = readsOf i τ tr := by
+  rw [schedule_independent k i tr σ τ hc hl hag hcs hct,
+      schedule_independent k i tr τ τ hc hl' (agree_refl k τ) hct hct]
+
+/-- A configuration without read-back caches needs no coherence: the earlier form of the theorem. -/
+theorem schedule_independent_no_used_cache (k : Cfg) (hk : k.det = []) (i : Nat) (tr : Trace) (σ τ : State)
+    (hc : CleanTrace k tr) (hl : LazyInit k σ) (hag : AgreeOff k σ τ) : readsOf i σ tr = solo τ (proj i tr) :=
+  schedule_independent k i tr σ τ hc hl hag (fun c d h => by simp [hk] at h) (fun c d h => by simp [hk] at h)
+
+/-- A read-back cache filled with values that do NOT depend on the key alone is not transparent: thread 0 publishes
+    1000, thread 1 would have published 1001 and now goes on with 1000 (F-C15-2 was this, with descriptors). -/
+theorem used_cache_needs_key_determined_values :
+    readsOf 1 (fun _ => 0) [(0, .fillUse 11 1000), (1, .fillUse 11 1001)] ≠ solo (fun _ => 0) [.fillUse 11 1001] := by
+  decide
 
 /-- Validation does not write into the document: after any clean trace every non-cache cell holds what it
     held before. -/
@@ -226,17 +245,26 @@ theorem table_race_free (σ : State) (tr : Trace) (hl : LazyInit (tableCfg Gen.s
   · exact table_acts_clean x.2 hm
   · rw [hc]; simpa [cleanAct] using hn
 
-/-- Schedule independence for the code's own footprint. -/
+/-- Schedule independence for the code's own footprint (read-back caches — the type-info cache — hold nothing or
+    the value their key determines). -/
 theorem table_schedule_independent (σ : State) (tr : Trace) (i : Nat)
-    (hl : LazyInit (tableCfg Gen.sharedWrites) σ)
+    (hl : LazyInit (tableCfg Gen.sharedWrites) σ) (hco : Coherent (tableCfg Gen.sharedWrites) σ)
     (h : ∀ x ∈ tr, x.2 ∈ tableActs Gen.sharedWrites ∨
                    ∃ c, x.2 = .read c ∧ c ∉ (tableCfg Gen.sharedWrites).cache) :
     readsOf i σ tr = solo σ (proj i tr) := by
-  apply schedule_independent (tableCfg Gen.sharedWrites) i tr σ σ _ hl (agree_refl _ σ)
+  apply schedule_independent (tableCfg Gen.sharedWrites) i tr σ σ _ hl (agree_refl _ σ) hco hco
   intro x hx
   rcases h x hx with hm | ⟨c, hc, hn⟩
   · exact table_acts_clean x.2 hm
   · rw [hc]; simpa [cleanAct] using hn
+
+/-- Every mutex-guarded store reachable from the concurrent entry points is a load-or-publish (first writer wins):
+    an unconditional `cache[k] = v` under the lock — the shape `getTypeInfo` had before commit 9118e72 — is not a data
+    race but makes what a caller gets back depend on the schedule (`regression_type_info`). -/
+theorem mutex_stores_are_first_wins : ∀ w ∈ Gen.sharedWrites, rowClass w ≠ .lastWriterWins := by decide
+
+/-- …and the table does contain such a load-or-publish whose result is used (non-vacuity of the `fillUse` part). -/
+theorem table_has_first_wins_cache : (tableCfg Gen.sharedWrites).det ≠ [] := by decide
 
 /-- non-vacuity: the table does denote synchronised fills and a lazily re-initialised cell -/
 example : (tableCfg Gen.sharedWrites).cache ≠ [] ∧ (tableCfg Gen.sharedWrites).lazy ≠ [] ∧
@@ -274,6 +302,32 @@ example : globalClass [] ⟨"openapi3filter", "bodyDecoders", "map", false,
 example : globalClass [] ⟨"openapi3gen", "typeInfos", "map", false,
     [⟨"openapi3gen.getTypeInfo", .read, "", true⟩, ⟨"openapi3gen.getTypeInfo", .write, "typeInfosMutex", true⟩]⟩ = .bad := by decide
 
+/-! ## B″. the boundary of the property: calls that PREPARE the document (table `Gen.ConstructionWrites`, regenerated)
+
+The property is about FindRoute / ValidateRequest / ValidateResponse / VisitJSON / schema generation on a loaded,
+validated document. What the preparation calls write into the document, by the same translator rule: -/
+
+/-- `(*T).Validate` writes into the document only through `Paths.Set`, i.e. only to replace a missing (nil) path
+    item (openapi3/paths.go `if pathItem == nil`): re-validating an already validated document writes nothing, so
+    it may overlap the concurrent calls (as `legacy.NewRouter` does when a second router is built). -/
+theorem validate_writes_only_missing_path_items :
+    ∀ w ∈ Gen.validateWrites, rowFn w = "openapi3.(*Paths).Set" := by decide
+
+/-- `gorillamux.NewRouter` writes nothing into the document. -/
+theorem gorillamux_construction_leaves_document_alone : Gen.gorillaCtorWrites = [] := by decide
+
+/-- `legacy.NewRouter` validates the document (same nil path-item fill) and otherwise writes its own, new tree. -/
+theorem legacy_construction_writes :
+    ∀ w ∈ Gen.legacyCtorWrites, rowFn w ∈ ["openapi3.(*Paths).Set", "routers/legacy/pathpattern.(*Node).Add",
+      "routers/legacy/pathpattern.(*Node).CreateNode"] := by decide
+
+/-- `(*T).InternalizeRefs` is NOT read-only (it keeps its visited-sets in the document, `doc.visited`, and rewrites
+    references and components): it is a preparation step and outside the property's concurrent calls — a call of it
+    that overlaps a validation is a data race by `plain_write_races`. -/
+theorem internalize_refs_is_not_read_only :
+    Gen.internalizeWrites.any (fun w => rowFn w == "openapi3.(*T).isVisitedSchema") = true ∧
+    Gen.internalizeWrites.any (fun w => rowFn w == "openapi3.(*T).resetVisited") = true := by decide
+
 /-! ## C. the executable case model used by the correspondence run
 
 Full strength (the exclusions `SharedObjectDefault` / `TypeInfoIdentity` of findings F-C15-1 / F-C15-2 are gone:
@@ -292,7 +346,8 @@ theorem outcome_clean (c : CaseM) : outcome c = specOutcome := by
   have hd : (List.range c.g).any (fun i => readsOf i sigma0 (caseTrace c) != solo sigma0 (proj i (caseTrace c))) = false := by
     rw [List.any_eq_false]
     intro i _
-    simp [schedule_independent (caseCfg c) i (caseTrace c) sigma0 sigma0 hc hl (agree_refl _ _)]
+    simp [schedule_independent (caseCfg c) i (caseTrace c) sigma0 sigma0 hc hl (agree_refl _ _)
+            (sigma0_coherent c) (sigma0_coherent c)]
   have hdoc : docCells.any (fun d => finalState sigma0 (caseTrace c) d != sigma0 d) = false := by
     rw [List.any_eq_false]
     intro d hdm
@@ -351,7 +406,7 @@ example : outcome { ops := [{ kind := .vreq, patterns := [0], dialect := 1 }, { 
                             { kind := .vresp, patterns := [0, 1], dialect := 1 }], g := 6, per := 2, sched := 3 }
     = specOutcome := by decide
 
-/-- the repaired `getTypeInfo` on the same schedule: first published descriptor wins, modelled as a fill -/
+/-- the repaired `getTypeInfo` on the same schedule: first published descriptor wins and is used (`fillUse`) -/
 example : outcome { ops := [{ kind := .gen, genType := 3, recursive := true }], g := 2, per := 1, sched := 9 }
     = specOutcome := by decide
 
